@@ -1,4 +1,4 @@
-use std::collections::{HashMap, HashSet};
+use std::collections::{BTreeMap, HashMap, HashSet};
 use std::error::Error;
 use std::hash::Hash;
 use std::path::Path;
@@ -88,7 +88,8 @@ where
     /// end_key: &K - the end key, exclusive
     /// Returns: Vec<(K, V)> - the list of key-value pairs
     pub fn get_range(&self, start_key: &K, end_key: &K) -> Result<Vec<(K, V)>, Box<dyn Error>> {
-        let mut kv_pairs = HashMap::new();
+        // Keyed by the encoded key, so that the result is complete and in key order
+        let mut kv_pairs: BTreeMap<Vec<u8>, (K, V)> = BTreeMap::new();
         let start_key_bytes = start_key.encode_vec();
         let end_key_bytes = end_key.encode_vec();
 
@@ -96,33 +97,29 @@ where
             &start_key_bytes,
             rocksdb::Direction::Forward,
         )) {
-            let (key, value) = kv_pair?;
-            if *key >= *end_key_bytes {
-                break;
-            }
-            let key = K::decode_vec(&key.to_vec())?;
-            let value = V::decode_vec(&value.to_vec())?;
-            kv_pairs.insert(key, value);
-        }
-
-        for key in self.cache.keys() {
-            let key_bytes = key.encode_vec();
-            if *key_bytes < *start_key_bytes {
-                continue;
-            }
+            let (key_bytes, value) = kv_pair?;
             if *key_bytes >= *end_key_bytes {
                 break;
             }
-            if let Some(cache) = self.cache.get(key) {
-                if let Some(value) = cache.latest() {
-                    kv_pairs.insert(key.clone(), value.clone());
-                } else {
-                    kv_pairs.remove(key);
-                }
+            let key = K::decode_vec(&key_bytes.to_vec())?;
+            let value = V::decode_vec(&value.to_vec())?;
+            kv_pairs.insert(key_bytes.to_vec(), (key, value));
+        }
+
+        // The cache is an unordered map: every key has to be looked at
+        for (key, cache) in self.cache.iter() {
+            let key_bytes = key.encode_vec();
+            if *key_bytes < *start_key_bytes || *key_bytes >= *end_key_bytes {
+                continue;
+            }
+            if let Some(value) = cache.latest() {
+                kv_pairs.insert(key_bytes, (key.clone(), value));
+            } else {
+                kv_pairs.remove(&key_bytes);
             }
         }
 
-        Ok(kv_pairs.into_iter().collect())
+        Ok(kv_pairs.into_values().collect())
     }
 
     /// Returns all keys and values in the database
